@@ -181,14 +181,20 @@ def parse_config_file(contents: str) -> Settings:
     if not tool:
         return Settings()
 
+    if not isinstance(tool, dict):
+        raise ValueError('refurb: "tool" must be a table')
+
     config = tool.get("refurb")
 
     if not config:
         return Settings()
 
+    if not isinstance(config, dict):
+        raise ValueError('refurb: "tool.refurb" must be a table')
+
     settings = Settings()
 
-    settings.load = pop_list(config, "load")
+    settings.load = [str(x) for x in pop_list(config, "load")]
     settings.quiet = pop_bool(config, "quiet")
     settings.disable_all = pop_bool(config, "disable_all")
     settings.enable_all = pop_bool(config, "enable_all")
